@@ -29,17 +29,60 @@ FEES = "basana.backtesting.fees"
 OM = "basana.backtesting.order_mgr.OrderManager"
 
 
+def fee_entries(fn):
+    """Every place where Percentage.calculate_fees produces a fee entry: ``ret[K] = V`` or ``return {K: V}``; (key, value, stmt)."""
+    out = []
+    for s in A.stores(fn):
+        if isinstance(s.target, ast.Subscript) and hasattr(s.node, "value"):
+            out.append((s.target.slice, s.node.value, s.stmt))
+    for r in C.walk_shallow(fn.node):
+        if isinstance(r, ast.Return) and isinstance(r.value, ast.Dict) and r.value.keys:
+            for k, v in zip(r.value.keys, r.value.values):
+                out.append((k, v, r))
+        elif isinstance(r, ast.Return) and isinstance(r.value, ast.IfExp):
+            for br, neg in ((r.value.body, False), (r.value.orelse, True)):
+                if isinstance(br, ast.Dict) and br.keys:
+                    for k, v in zip(br.keys, br.values):
+                        g = ast.UnaryOp(op=ast.Not(), operand=r.value.test) if neg else r.value.test
+                        out.append((k, v, r, ast.fix_missing_locations(ast.copy_location(g, r))))
+    return out
+
+
+def fee_returns_recognised(fn) -> list:
+    """Returns that are none of: the map stored into, {}, {K: V}, ``{K: V} if G else {}`` -- the rule cannot see what they produce."""
+    stored = {A.dotted(s.target.value) for s in A.stores(fn) if isinstance(s.target, ast.Subscript)}
+
+    def ok(v):
+        if v is None:
+            return False
+        if isinstance(v, ast.Dict):
+            return all(k is not None for k in v.keys)
+        if isinstance(v, ast.IfExp):
+            return ok(v.body) and ok(v.orelse)
+        return A.dotted(v) in stored or (isinstance(v, ast.Name) and not stored and False)
+    return [r for r in C.walk_shallow(fn.node) if isinstance(r, ast.Return) and not ok(r.value)
+            and not (isinstance(r.value, ast.Name) and _is_empty_map(fn, r.value.id))]
+
+
+def _is_empty_map(fn, name: str) -> bool:
+    ds = [s for s in A.stores(fn) if isinstance(s.target, ast.Name) and s.target.id == name]
+    return bool(ds) and all(hasattr(d.node, "value") and ast.unparse(d.node.value) in ("{}", "dict()") for d in ds)
+
+
 def rule_sign(ctx: Ctx) -> None:
+    from .. import norm as N
     fn = ctx.func(f"{FEES}.Percentage.calculate_fees")
-    st = [s for s in A.stores(fn) if isinstance(s.target, ast.Subscript)]
+    st = fee_entries(fn)
     ctx.floor("C09.1", "stores into the fee map", len(st), 1)
-    symdef = [s for s in A.stores(fn) if isinstance(s.target, ast.Name) and s.target.id == "symbol"]
-    oksym = bool(symdef) and ast.unparse(symdef[0].node.value) == "order.pair.quote_symbol"
-    for s in st:
-        ctx.check(oksym and A.dotted(s.target.slice) == "symbol", "C09.1", "fees are charged in the quote symbol only", fn, s.stmt,
+    unk = fee_returns_recognised(fn)
+    ctx.check(not unk, "C09.1", "every return of calculate_fees is the fee map, {} or a {quote: fee} literal", fn, unk[0] if unk else fn.node,
+              "recognised", "a return whose entries the rule cannot enumerate", key_text="returns recognised")
+    for ent in st:
+        key, val, stmt = ent[:3]
+        ctx.check(key is not None and N.canon(N.expand(fn, key)) == "order.pair.quote_symbol", "C09.1", "fees are charged in the quote symbol only", fn, stmt,
                   "ret[order.pair.quote_symbol]", "a fee is stored under a key other than the order's quote symbol")
-        guard = next((a.test for a in A.ancestors(s.stmt) if isinstance(a, ast.If)), None)
-        val = s.node.value
+        guard = ent[3] if len(ent) > 3 else next((a.test for a in A.ancestors(stmt) if isinstance(a, ast.If) and A.is_within(stmt, a)
+                                                  and not any(A.is_within(stmt, o) or o is stmt for o in a.orelse)), None)
         tt = None
         if guard is not None and isinstance(val, ast.Name):
             names = {x.id for x in ast.walk(guard) if isinstance(x, ast.Name)} - {"Decimal"}
@@ -47,9 +90,9 @@ def rule_sign(ctx: Ctx) -> None:
                 tt = K.truth_table(guard, val.id, extra=[0.0])
             elif isinstance(guard, ast.Name) and guard.id == val.id:
                 tt = {"(-inf,0)": True, "{0}": False, "(0,+inf)": True}
-        ctx.sample({"rule": "C09.1", "store": ast.unparse(s.stmt), "guard": ast.unparse(guard) if guard is not None else None, "truth_table": tt})
+        ctx.sample({"rule": "C09.1", "store": ast.unparse(stmt), "guard": ast.unparse(guard) if guard is not None else None, "truth_table": tt})
         ctx.check(tt == {"(-inf,0)": True, "{0}": False, "(0,+inf)": False}, "C09.1",
-                  "a fee entry is produced exactly when the pending fee is a debit (< 0)", fn, s.stmt, str(tt),
+                  "a fee entry is produced exactly when the pending fee is a debit (< 0)", fn, stmt, str(tt),
                   f"the fee entry is stored for cells {tt}: a positive pending fee (earlier fills were over-charged by rounding) becomes a "
                   "refund, i.e. a negative fee, and the order's total fee drops below the exact amount")
     ctx.exhaustive = True
@@ -90,39 +133,34 @@ def _slice(fn, name: str, seen: Optional[Set[str]] = None) -> Set[str]:
 
 
 def rule_dependence(ctx: Ctx) -> None:
+    from .. import norm as N
     fn = ctx.func(f"{FEES}.Percentage.calculate_fees")
-    st = [s for s in A.stores(fn) if isinstance(s.target, ast.Subscript)]
-    val = st[0].node.value
+    st = fee_entries(fn)
+    val, stmt = st[0][1], st[0][2]
     ctx.require(isinstance(val, ast.Name), "C09.2: the stored fee is not a local name")
     deps = _slice(fn, val.id)
     need = {"order.fees": "the fees already charged to the order", "order.balance_updates": "the order's cumulative quote amount",
             fn.params[2]: "this fill's quote amount", "self._percentage": "the percentage", "self._min_fee": "the minimum fee"}
     ctx.sample({"rule": "C09.2", "charged fee depends on": sorted(deps)})
     for term, what in need.items():
-        ctx.check(any(d == term or d.startswith(term + ".") for d in deps), "C09.2", f"the fee charged depends on {what}", fn, st[0].stmt,
+        ctx.check(any(d == term or d.startswith(term + ".") for d in deps), "C09.2", f"the fee charged depends on {what}", fn, stmt,
                   f"{term} in the slice", f"the fee charged does not depend on {what}: the total is no longer independent of how the order "
                   "was split into fills / ignores the configuration")
-    src = ast.unparse(fn.node)
-    defs = {s.target.id: s.node.value for s in A.stores(fn) if isinstance(s.target, ast.Name) and hasattr(s.node, "value")}
-
-    def resolve(e, depth=0):
-        while isinstance(e, ast.Name) and e.id in defs and isinstance(defs[e.id], ast.Name) and depth < 5:
-            e = defs[e.id]
-            depth += 1
-        return e
-    pv = defs.get(val.id)
-    okp = isinstance(pv, ast.BinOp) and isinstance(pv.op, ast.Sub) and isinstance(resolve(pv.right), ast.Name) \
-        and "order.fees" in ast.unparse(defs.get(resolve(pv.right).id, ast.Constant(value=""))) and isinstance(resolve(pv.left), ast.Name)
-    ctx.check(okp, "C09.2", "pending fee = total due - already charged", fn, st[0].stmt, ast.unparse(pv) if pv is not None else "?",
-              f"pending fee is computed as {ast.unparse(pv) if pv is not None else '?'}")
+    # shape of the computation with every local temporary expanded
+    pv = N.expand(fn, val, depth=8)
+    ptxt = N.canon(pv)
+    okp = isinstance(pv, ast.BinOp) and isinstance(pv.op, ast.Sub) and N.canon(pv.right).startswith("order.fees.get(order.pair.quote_symbol")
+    ctx.check(okp, "C09.2", "pending fee = total due - already charged", fn, stmt, ptxt[:160], f"pending fee is computed as {ptxt[:160]}",
+              key_text="pending = total - charged")
     if okp:
-        tv = defs.get(resolve(pv.left).id)
-        txt = ast.unparse(tv) if tv is not None else ""
+        txt = N.canon(pv.left)
         ctx.check(txt.startswith("-max(") and "self._percentage / Decimal(100)" in txt and "self._min_fee" in txt and "abs(" in txt, "C09.2",
-                  "total due = -max(|cumulative quote| x pct / 100, minimum)", fn, st[0].stmt, txt, f"total due is {txt}")
-        tq = [k for k, v in defs.items() if "order.balance_updates.get(symbol" in ast.unparse(v) and f"{fn.params[2]}.get(symbol" in ast.unparse(v)]
-        ctx.check(bool(tq) and tq[0] in txt, "C09.2", "the cumulative quote amount is what the order traded so far plus this fill", fn, st[0].stmt,
-                  "order.balance_updates[quote] + fill[quote]", "cumulative quote amount is not order-so-far + this fill")
+                  "total due = -max(|cumulative quote| x pct / 100, minimum)", fn, stmt, txt, f"total due is {txt}", key_text="total due")
+        absargs = [N.canon(c.args[0]).replace(" ", "") for c in ast.walk(pv.left) if isinstance(c, ast.Call) and A.call_name(c) == "abs" and c.args]
+        so_far, this = "order.balance_updates.get(order.pair.quote_symbol,Decimal(0))", f"{fn.params[2]}.get(order.pair.quote_symbol,Decimal(0))"
+        ctx.check(bool(absargs) and absargs[0] in (f"{so_far}+{this}", f"{this}+{so_far}"), "C09.2",
+                  "the cumulative quote amount is what the order traded so far plus this fill", fn, stmt,
+                  "order.balance_updates[quote] + fill[quote]", "cumulative quote amount is not order-so-far + this fill", key_text="cumulative quote")
 
 
 def rule_charged_recorded(ctx: Ctx) -> None:
